@@ -18,11 +18,12 @@ type ackIdx map[uint64]quorum.Index
 func (a ackIdx) AckedIndex(id uint64) (quorum.Index, bool) { v, ok := a[id]; return v, ok }
 
 type PureSummary struct {
-	Cases      int           `json:"cases"`
-	Mismatches int           `json:"mismatches"`
+	States     int            `json:"states"` // states read from the TLC dump
+	Cases      int            `json:"cases"`
+	Mismatches int            `json:"mismatches"`
 	Kinds      map[string]int `json:"kinds"`
-	Bad        []interface{} `json:"bad"`
-	Samples    []interface{} `json:"samples"`
+	Bad        []interface{}  `json:"bad"`
+	Samples    []interface{}  `json:"samples"`
 }
 
 func cmdQuorum(args []string) {
@@ -86,6 +87,7 @@ func cmdQuorum(args []string) {
 			}
 		}
 		sum.Cases++
+		sum.States++
 		sum.Kinds[kind]++
 		c := map[string]interface{}{"kind": kind, "c0": c0, "c1": c1, "vec": vec, "want": want, "got": got, "note": note}
 		if !ok {
